@@ -13,19 +13,35 @@ open JSight JSight.Gen
 
 /-! ## (5) bad targets are rejected at the INCLUDE -/
 
-/-- (5) a refused name, a missing file and a directory are rejected AT the INCLUDE token, whatever the scan state is
-    (in particular before the pending directive is placed: `st` is arbitrary) -/
+/-- (5) at an INCLUDE token the directive written before it is placed first (repair F42: `processInclude` starts with
+    `processCurrentDirective`).  If it cannot be placed, its context error is the result, whatever the INCLUDE names.
+    If it can, a refused name, a missing file and a directory are rejected AT the INCLUDE token — whatever else the
+    scan state is, and nothing behind the INCLUDE is looked at (`rest` is arbitrary) -/
 theorem bad_target_rejected (fs : FS) (fuel : Nat) (stack : List (Nat × Nat)) (cur pos : Nat) (rest : List FTok)
     (st : PScan) (f : Nat) :
-    scanIncFile fs (fuel + 1) stack cur pos (FTok.incl f false :: rest) st = .error (.inc (.badName cur pos)) ∧
-    (fs.get? f = none →
-      scanIncFile fs (fuel + 1) stack cur pos (FTok.incl f true :: rest) st = .error (.inc (.missing cur pos))) ∧
-    (fs.get? f = some .directory →
-      scanIncFile fs (fuel + 1) stack cur pos (FTok.incl f true :: rest) st = .error (.inc (.isDirectory cur pos))) := by
-  refine ⟨?_, ?_, ?_⟩
-  · rw [scanIncFile_incl]; rfl
-  · intro h; rw [scanIncFile_incl, h]; rfl
-  · intro h; rw [scanIncFile_incl, h]; rfl
+    (∀ e, flushPending st = .error e →
+      ∀ valid, scanIncFile fs (fuel + 1) stack cur pos (FTok.incl f valid :: rest) st = .error e) ∧
+    (∀ st', flushPending st = .ok st' →
+      scanIncFile fs (fuel + 1) stack cur pos (FTok.incl f false :: rest) st = .error (.inc (.badName cur pos)) ∧
+      (fs.get? f = none →
+        scanIncFile fs (fuel + 1) stack cur pos (FTok.incl f true :: rest) st = .error (.inc (.missing cur pos))) ∧
+      (fs.get? f = some .directory →
+        scanIncFile fs (fuel + 1) stack cur pos (FTok.incl f true :: rest) st =
+          .error (.inc (.isDirectory cur pos)))) := by
+  refine ⟨?_, ?_⟩
+  · intro e hfl valid; exact scanIncFile_incl_error fs fuel stack cur pos f valid rest st e hfl
+  · intro st' hfl
+    refine ⟨?_, ?_, ?_⟩
+    · rw [scanIncFile_incl_ok fs fuel stack cur pos f false rest st st' hfl]; rfl
+    · intro h; rw [scanIncFile_incl_ok fs fuel stack cur pos f true rest st st' hfl, h]; rfl
+    · intro h; rw [scanIncFile_incl_ok fs fuel stack cur pos f true rest st st' hfl, h]; rfl
+
+/-- (5, the order of events) the pending directive is placed BEFORE the INCLUDE is examined: if it cannot be placed,
+    the scan of any token list from that state fails with its context error (given one unit of fuel) -/
+theorem pending_error_first (fs : FS) (fuel : Nat) (stack : List (Nat × Nat)) (cur pos : Nat) (toks : List FTok)
+    (st : PScan) (e : ProjErr) (hfl : flushPending st = .error e) :
+    scanIncFile fs (fuel + 1) stack cur pos toks st = .error e :=
+  scanIncFile_flush_error fs fuel stack cur pos toks st e hfl
 
 /-! ## (4) JSIGHT inside an included file -/
 
@@ -64,14 +80,10 @@ theorem jsight_in_included_project (fs : FS) (root f : Nat) (pre post bpre bpost
   · cases h
   · rename_i st hst
     obtain ⟨fuel', pos', st', h'⟩ := ok_suffix fs [] root _ st pre _ 0 {} hst
-    cases fuel' with
-    | zero => rw [scanIncFile_zero] at h'; cases h'
-    | succ n =>
-      rw [scanIncFile_incl_file fs n [] root pos' f post _ st' hf rfl] at h'
-      split at h'
-      · cases h'
-      · rename_i st'' hin
-        exact jsight_in_included_rejected fs n [(root, pos')] f 0 bpre bpost d st' st'' hk (by simp) hin
+    obtain ⟨n, body, stf, st'', _, _, _, hg, _, hin, _⟩ := incl_head_ok fs fuel' [] root pos' f true post st' st h'
+    rw [hf] at hg
+    cases hg
+    exact jsight_in_included_rejected fs n [(root, pos')] f 0 bpre bpost d stf st'' hk (by simp) hin
 
 /-! ## (1) the include stack never holds a file twice -/
 
@@ -82,25 +94,29 @@ theorem stack_nodup_step (stack : List (Nat × Nat)) (cur pos : Nat) (hn : (stac
   nodup_push hn hs
 
 /-- (1, the call) the only recursive call of `scanIncFile` with a different stack is made at a live stack again: below
-    a live `(stack, cur)`, at the token `incl f true` (position `pos` of `cur`) of an existing regular file `f`, the
-    scan either stops with `recursion` (`cur` already on the stack) or continues in `f` below `(cur, pos) :: stack`,
-    which is live; (the other recursive calls keep `stack` and `cur`) -/
+    a live `(stack, cur)`, at the token `incl f true` (position `pos` of `cur`) of an existing regular file `f`, once
+    the pending directive is placed (giving `stf`; otherwise the scan stops with its error, `bad_target_rejected`),
+    the scan either stops with `recursion` (`cur` already on the stack) or continues in `f` below
+    `(cur, pos) :: stack`, which is live; (the other recursive calls keep `stack` and `cur`) -/
 theorem push_is_live (fs : FS) (root fuel : Nat) (stack : List (Nat × Nat)) (cur pos f : Nat)
-    (all body rest : List FTok) (st : PScan) (hl : Live fs root stack cur)
+    (all body rest : List FTok) (st stf : PScan) (hl : Live fs root stack cur)
     (hc : fs.get? cur = some (.file all)) (ht : FTok.incl f true :: rest = all.drop pos)
-    (hf : fs.get? f = some (.file body)) :
+    (hf : fs.get? f = some (.file body)) (hfl : flushPending st = .ok stf) :
     (stack.any (·.1 == cur) = true ∧
       scanIncFile fs (fuel + 1) stack cur pos (FTok.incl f true :: rest) st = .error (.inc (.recursion cur pos))) ∨
     (Live fs root ((cur, pos) :: stack) f ∧
       scanIncFile fs (fuel + 1) stack cur pos (FTok.incl f true :: rest) st =
-        match scanIncFile fs fuel ((cur, pos) :: stack) f 0 body st with
+        match scanIncFile fs fuel ((cur, pos) :: stack) f 0 body stf with
         | .error e => .error e
         | .ok st' => scanIncFile fs fuel stack cur (pos + 1) rest st') := by
   cases hs : stack.any (·.1 == cur) with
-  | true => left; refine ⟨rfl, ?_⟩; rw [scanIncFile_incl, hf]; simp [hs]
+  | true =>
+    left; refine ⟨rfl, ?_⟩
+    rw [scanIncFile_incl_ok fs fuel stack cur pos f true rest st stf hfl, hf]; simp [hs]
   | false =>
     right
-    exact ⟨Live.push hl hs hc (drop_cons ht).1 hf, scanIncFile_incl_file fs fuel stack cur pos f rest body st hf hs⟩
+    exact ⟨Live.push hl hs hc (drop_cons ht).1 hf,
+      scanIncFile_incl_file_ok fs fuel stack cur pos f rest body st stf hf hs hfl⟩
 
 /-- (1) a live include stack never holds a file twice; its entries are INCLUDE tokens of existing files; it ends at the
     root file; hence its depth is at most the number of files -/
@@ -164,15 +180,11 @@ theorem self_include_rejected (fs : FS) (root : Nat) (pre post : List FTok)
   · cases h
   · rename_i st hst
     obtain ⟨fuel', pos', st', h'⟩ := ok_suffix fs [] root _ st pre _ 0 {} hst
-    cases fuel' with
-    | zero => rw [scanIncFile_zero] at h'; cases h'
-    | succ n =>
-      rw [scanIncFile_incl_file fs n [] root pos' root post _ st' hroot rfl] at h'
-      split at h'
-      · cases h'
-      · rename_i st'' hin
-        refine incl_on_stack_not_ok fs n [(root, pos')] root 0 _ st' st'' (by simp) ⟨root, true, ?_⟩ hin
-        simp
+    obtain ⟨n, body, stf, st'', _, _, _, hg, _, hin, _⟩ := incl_head_ok fs fuel' [] root pos' root true post st' st h'
+    rw [hroot] at hg
+    cases hg
+    refine incl_on_stack_not_ok fs n [(root, pos')] root 0 _ stf st'' (by simp) ⟨root, true, ?_⟩ hin
+    simp
 
 /-- (3, the error) if the self-INCLUDE is the first token of the root file, the diagnostic is `recursion` at that
     token (found when the file is entered the second time) -/
@@ -183,7 +195,9 @@ theorem self_include_first (fs : FS) (root : Nat) (post : List FTok)
   rw [hroot]
   simp only []
   have : (fs.length + 2) * (fsSize fs + 2) + 2 = ((fs.length + 2) * (fsSize fs + 2)) + 1 + 1 := rfl
-  rw [this, scanIncFile_incl_file fs _ [] root 0 root post _ {} hroot rfl, scanIncFile_incl, hroot]
+  have hfl : flushPending {} = .ok {} := rfl
+  rw [this, scanIncFile_incl_file_ok fs _ [] root 0 root post _ {} {} hroot rfl hfl,
+    scanIncFile_incl_ok fs _ [(root, 0)] root 0 root true post {} {} hfl, hroot]
   simp
 
 /-! ## (7) recorded traces -/
@@ -226,8 +240,12 @@ traces differ between the two runs. The two runs may use different amounts of fu
 /-- (6) TEXTUAL INCLUSION: let `f` be a regular file whose tokens `body` contain no INCLUDE and no JSIGHT, and let the
     including file `cur` not be on the stack. From the same state, the scan of `pre ++ incl f :: post` (cut) and the
     scan of `pre ++ body ++ post` (spliced) end alike — the same context and pending directive, or the same error up
-    to its position — unless the cut run ends in a CONTEXT error (which can only come from the end of `f`, where the
-    pending directive is placed early and an open parenthesised context is refused, see the examples) -/
+    to its position — unless the cut run ends with `unclosedAtEOF`: the ONLY thing an INCLUDE adds to its text is that
+    the included file must not end inside a parenthesised context (see the examples).
+    (Before the repair F42 the exception was "unless the cut run ends in a context error": the directive pending at
+    the end of `f` is placed there, but was not placed by an INCLUDE that follows in the spliced text.  Now both the
+    directive written before the INCLUDE and the one pending at the end of `f` are placed at the same moment in both
+    runs, and no special treatment of the pending directive at the two boundaries is left.) -/
 theorem include_is_textual (fs : FS) (stack : List (Nat × Nat)) (cur pos f : Nat) (pre body post : List FTok)
     (st : PScan) (hf : fs.get? f = some (.file body)) (hincl : ∀ g v, FTok.incl g v ∉ body)
     (hjs : ∀ d, FTok.dir d ∈ body → d.kind ≠ Kind.Jsight) (hs : stack.any (·.1 == cur) = false) (n1 n2 : Nat)
@@ -235,18 +253,39 @@ theorem include_is_textual (fs : FS) (stack : List (Nat × Nat)) (cur pos f : Na
     (h2 : scanIncFile fs n2 stack cur pos (pre ++ (body ++ post)) st ≠ .error (.inc .fuel)) :
     view (scanIncFile fs n1 stack cur pos (pre ++ FTok.incl f true :: post) st) =
       view (scanIncFile fs n2 stack cur pos (pre ++ (body ++ post)) st) ∨
-    ∃ e, scanIncFile fs n1 stack cur pos (pre ++ FTok.incl f true :: post) st = .error (.ctx e) := by
+    scanIncFile fs n1 stack cur pos (pre ++ FTok.incl f true :: post) st = .error (.ctx .unclosedAtEOF) := by
   refine prefix_lift fs stack cur pre (FTok.incl f true :: post) (body ++ post)
-    (fun a b => view a = view b ∨ ∃ e, a = .error (.ctx e)) (fun e => Or.inl rfl) ?_ n1 n2 pos st h1 h2
+    (fun a b => view a = view b ∨ a = .error (.ctx .unclosedAtEOF)) (fun e => Or.inl rfl) ?_ n1 n2 pos st h1 h2
   intro m p st1 g1 g2
   have := textual_at fs stack cur p f body post st1 hf hincl hjs hs m m g1 g2
   split at this
-  · exact Or.inr ⟨_, this.1⟩
+  · exact Or.inl (by rw [this.1, this.2])
   · split at this
-    · exact Or.inr ⟨_, this.1⟩
+    · exact Or.inl (by rw [this.1, this.2])
     · split at this
-      · exact Or.inr ⟨_, this⟩
+      · exact Or.inr this
       · exact Or.inl this
+
+/-- (6, errors) every error of the cut run other than `unclosedAtEOF` is the error of the spliced run, up to its
+    position; in particular a context error about a misplaced directive is the same in both runs -/
+theorem include_is_textual_error (fs : FS) (stack : List (Nat × Nat)) (cur pos f : Nat) (pre body post : List FTok)
+    (st : PScan) (hf : fs.get? f = some (.file body)) (hincl : ∀ g v, FTok.incl g v ∉ body)
+    (hjs : ∀ d, FTok.dir d ∈ body → d.kind ≠ Kind.Jsight) (hs : stack.any (·.1 == cur) = false) (n1 n2 : Nat)
+    (e : ProjErr) (h1 : scanIncFile fs n1 stack cur pos (pre ++ FTok.incl f true :: post) st = .error e)
+    (he : e ≠ .inc .fuel) (he' : e ≠ .ctx .unclosedAtEOF)
+    (h2 : scanIncFile fs n2 stack cur pos (pre ++ (body ++ post)) st ≠ .error (.inc .fuel)) :
+    ∃ e', scanIncFile fs n2 stack cur pos (pre ++ (body ++ post)) st = .error e' ∧ erasePos e' = erasePos e := by
+  have h1' : scanIncFile fs n1 stack cur pos (pre ++ FTok.incl f true :: post) st ≠ .error (.inc .fuel) := by
+    rw [h1]; intro h; injection h with h; exact he h
+  rcases include_is_textual fs stack cur pos f pre body post st hf hincl hjs hs n1 n2 h1' h2 with h | h
+  · rw [h1] at h
+    cases hr : scanIncFile fs n2 stack cur pos (pre ++ (body ++ post)) st with
+    | ok r' => rw [hr] at h; simp [view] at h
+    | error e' =>
+      rw [hr] at h
+      simp only [view, Except.error.injEq] at h
+      exact ⟨e', rfl, h.symm⟩
+  · rw [h1] at h; injection h with h; exact absurd h he'
 
 /-- (6, cut ⇒ spliced) if the project with the INCLUDE is accepted, so is the spliced text, with the same context,
     pending directive and forest -/
@@ -259,7 +298,7 @@ theorem include_is_textual_ok (fs : FS) (stack : List (Nat × Nat)) (cur pos f :
       r'.pending = r.pending ∧ closeAll r'.ctx.frames r'.ctx.roots = closeAll r.ctx.frames r.ctx.roots := by
   have h1' : scanIncFile fs n1 stack cur pos (pre ++ FTok.incl f true :: post) st ≠ .error (.inc .fuel) := by
     rw [h1]; intro h; cases h
-  rcases include_is_textual fs stack cur pos f pre body post st hf hincl hjs hs n1 n2 h1' h2 with h | ⟨e, h⟩
+  rcases include_is_textual fs stack cur pos f pre body post st hf hincl hjs hs n1 n2 h1' h2 with h | h
   · rw [h1] at h
     cases hr : scanIncFile fs n2 stack cur pos (pre ++ (body ++ post)) st with
     | error e => rw [hr] at h; simp [view] at h
@@ -295,7 +334,7 @@ theorem include_is_textual_conv (fs : FS) (stack : List (Nat × Nat)) (cur pos f
     split at this
     · rw [this.2] at hr2; cases hr2
     · split at this
-      · exact absurd hr2 (this.2 r2)
+      · rw [this.2] at hr2; cases hr2
       · split at this
         · exact Or.inr this
         · rw [hr2] at this
@@ -347,23 +386,29 @@ example : scanProject [(0, .file [.dir urlD, .incl 1]), (1, .directory)] 0 = .er
   decide +kernel
 example : scanProject [(0, .file [.dir urlD, .incl 1 false]), (1, .file [])] 0 = .error (.inc (.badName 0 1)) := by
   decide +kernel
-/-- the pending directive (a Get at top level would be placed; a Body is misplaced) is NOT placed before the INCLUDE
-    is examined: the INCLUDE error wins -/
-example : scanProject [(0, .file [.dir { kind := .Body, id := 9 }, .incl 7])] 0 = .error (.inc (.missing 0 1)) := by
-  decide +kernel
+/-- the pending directive (a Get at top level would be placed; a Body is misplaced) is placed BEFORE the INCLUDE is
+    examined (repair F42): its context error wins over the INCLUDE error -/
+example : scanProject [(0, .file [.dir { kind := .Body, id := 9 }, .incl 7])] 0
+    = .error (.ctx (.incorrectContext 9)) := by decide +kernel
+/-- … also when the INCLUDE names an existing file: the included file is not entered with the directive unplaced
+    (before the repair the JSIGHT of file 1 was reported, below the stack of file 1) -/
+example : scanProject [(0, .file [.dir { kind := .Body, id := 9 }, .incl 1]), (1, .file [.dir jsightD])] 0
+    = .error (.ctx (.incorrectContext 9)) := by decide +kernel
 
-/-- an included file must not leave a parenthesised context open, although the spliced text is fine -/
+/-- the right-hand alternative of `include_is_textual`: an included file must not leave a parenthesised context open,
+    although the spliced text is fine -/
 example : scanProject [(0, .file [.incl 1, .dir getA, .close]), (1, .file [.dir urlX])] 0
     = .error (.ctx .unclosedAtEOF) := by decide +kernel
 example : scanProject [(0, .file [.dir urlX, .dir getA, .close])] 0
     = .ok ([.node urlX [.node getA []]], [(6, []), (3, [])]) := by decide +kernel
 
-/-- textual inclusion, the right-hand alternative of `include_is_textual`: the misplaced Body ends the included file
-    and is placed there (context error); in the spliced text the following INCLUDE fails first -/
+/-- textual inclusion at the end of the included file: the misplaced Body ends the included file and is placed there
+    (context error); in the spliced text the following INCLUDE places it as well (before the repair F42 the INCLUDE
+    failed first, with `missing`) -/
 example : scanProject [(0, .file [.incl 1, .incl 7]), (1, .file [.dir { kind := .Body, id := 9 }])] 0
     = .error (.ctx (.incorrectContext 9)) := by decide +kernel
 example : scanProject [(0, .file [.dir { kind := .Body, id := 9 }, .incl 7])] 0
-    = .error (.inc (.missing 0 1)) := by decide +kernel
+    = .error (.ctx (.incorrectContext 9)) := by decide +kernel
 /-- textual inclusion: the children of the implicitly nested URL, cut and spliced -/
 example : (scanProject [(0, .file [.dir urlD, .incl 1, .dir tyD]), (1, .file [.dir getA, .dir getB])] 0).map (·.1)
     = (scanProject [(0, .file [.dir urlD, .dir getA, .dir getB, .dir tyD])] 0).map (·.1) := by decide +kernel
